@@ -3,7 +3,9 @@
   (`XItem`, annotations erased) lies in the domain of the binary round trip as soon as its sizes fit the
   binary format, and the tree the binary decoder returns, lifted to an annotated tree for the generic text
   codecs (`noHints`), lies in the domain of the text round trips as soon as its dates can be written in
-  RFC 3339. Core Lean only.
+  RFC 3339. Hints are POSITIONAL (`Hints = List Nat → Int → Hint`): the text → binary lemmas hold for every
+  `H` (the recursion passes `H.child` / `hintsTail` down, as the readers do); for the generic decoder the
+  hints below any position are `noHints` again (`noHints_child`, `hintsTail_noHints`). Core Lean only.
 -/
 import KmipModel.Lemmas.FixpointLemmas
 import KmipModel.Lemmas.LexLemmas
@@ -79,77 +81,77 @@ theorem toNat_tagOk0 {t : Int} (h : tagOk0 t = true) : t.toNat < 2 ^ 24 := by
 mutual
   /-- a tree of the text readers' output domain (non-root position), annotations erased, is in the domain
       of the binary round trip when its sizes fit. -/
-  theorem XItem.erase_inRange {R : Rfc3339} {H : Hints} : ∀ (t : XItem),
+  theorem XItem.erase_inRange {R : Rfc3339} : ∀ (t : XItem) (H : Hints),
       t.representableG false R H = true → t.erase.Fits → t.erase.InRange
-    | .struct t cs, h, hf => by
+    | .struct t cs, H, h, hf => by
       simp only [XItem.representableG, Bool.and_eq_true, rootTagOk] at h
       simp only [XItem.erase, Item.Fits] at hf
       have ht := toNat_tagOk (by simpa using h.1)
       simp only [XItem.erase, Item.InRange]
-      exact ⟨ht.1, ht.2, hf.1, XItem.eraseList_allInRange cs h.2 hf.2⟩
-    | .int t v, h, _ => by
+      exact ⟨ht.1, ht.2, hf.1, XItem.eraseList_allInRange cs H.child h.2 hf.2⟩
+    | .int t v, _, h, _ => by
       simp only [XItem.representableG, Bool.and_eq_true, rootTagOk] at h
       have ht := toNat_tagOk (by simpa using h.1.1)
       simp only [XItem.erase, Item.InRange]
       exact ⟨ht.1, ht.2, inInt32_of_ok h.1.2⟩
-    | .mask t m v, h, _ => by
+    | .mask t m v, _, h, _ => by
       simp only [XItem.representableG, Bool.and_eq_true, rootTagOk] at h
       have ht := toNat_tagOk (by simpa using h.1.1)
       simp only [XItem.erase, Item.InRange]
       exact ⟨ht.1, ht.2, inInt32_of_ok h.1.2⟩
-    | .long t v, h, _ => by
+    | .long t v, _, h, _ => by
       simp only [XItem.representableG, Bool.and_eq_true, rootTagOk] at h
       have ht := toNat_tagOk (by simpa using h.1)
       simp only [XItem.erase, Item.InRange]
       exact ⟨ht.1, ht.2, inInt64_of_ok h.2⟩
-    | .big t v, h, hf => by
+    | .big t v, _, h, hf => by
       simp only [XItem.representableG, rootTagOk] at h
       have ht := toNat_tagOk (by simpa using h)
       simp only [XItem.erase, Item.Fits] at hf
       simp only [XItem.erase, Item.InRange]
       exact ⟨ht.1, ht.2, hf⟩
-    | .enum t e v, h, _ => by
+    | .enum t e v, _, h, _ => by
       simp only [XItem.representableG, Bool.and_eq_true, rootTagOk, decide_eq_true_eq] at h
       have ht := toNat_tagOk (by simpa using h.1.1)
       simp only [XItem.erase, Item.InRange]
       exact ⟨ht.1, ht.2, by have := h.1.2; omega⟩
-    | .bool t b, h, _ => by
+    | .bool t b, _, h, _ => by
       simp only [XItem.representableG, rootTagOk] at h
       have ht := toNat_tagOk (by simpa using h)
       simp only [XItem.erase, Item.InRange]
       exact ⟨ht.1, ht.2⟩
-    | .text t s, h, hf => by
+    | .text t s, _, h, hf => by
       simp only [XItem.representableG, rootTagOk] at h
       have ht := toNat_tagOk (by simpa using h)
       simp only [XItem.erase, Item.Fits] at hf
       simp only [XItem.erase, Item.InRange]
       exact ⟨ht.1, ht.2, hf⟩
-    | .bytes t s, h, hf => by
+    | .bytes t s, _, h, hf => by
       simp only [XItem.representableG, rootTagOk] at h
       have ht := toNat_tagOk (by simpa using h)
       simp only [XItem.erase, Item.Fits] at hf
       simp only [XItem.erase, Item.InRange]
       exact ⟨ht.1, ht.2, hf⟩
-    | .date t v, h, hf => by
+    | .date t v, _, h, hf => by
       simp only [XItem.representableG, Bool.and_eq_true, rootTagOk] at h
       have ht := toNat_tagOk (by simpa using h.1)
       simp only [XItem.erase, Item.Fits] at hf
       simp only [XItem.erase, Item.InRange]
       exact ⟨ht.1, ht.2, hf⟩
-    | .interval t v, h, _ => by
+    | .interval t v, _, h, _ => by
       simp only [XItem.representableG, Bool.and_eq_true, rootTagOk, decide_eq_true_eq] at h
       have ht := toNat_tagOk (by simpa using h.1)
       simp only [XItem.erase, Item.InRange]
       exact ⟨ht.1, ht.2, by have := h.2; omega⟩
-  theorem XItem.eraseList_allInRange {R : Rfc3339} {H : Hints} : ∀ (cs : List XItem),
-      XItem.representableList R H cs = true → Item.AllFit (XItem.eraseList cs) →
+  theorem XItem.eraseList_allInRange {R : Rfc3339} : ∀ (cs : List XItem) (Hs : Nat → Hints),
+      XItem.representableList R Hs cs = true → Item.AllFit (XItem.eraseList cs) →
       Item.AllInRange (XItem.eraseList cs)
-    | [], _, _ => by simp [XItem.eraseList, Item.AllInRange]
-    | x :: xs, h, hf => by
+    | [], _, _, _ => by simp [XItem.eraseList, Item.AllInRange]
+    | x :: xs, Hs, h, hf => by
       simp only [XItem.representableList, Bool.and_eq_true] at h
       simp only [XItem.eraseList, Item.AllFit] at hf
       simp only [XItem.eraseList, Item.AllInRange]
-      exact ⟨XItem.erase_inRange x h.1 hf.1, XItem.eraseList_allInRange xs h.2 hf.2⟩
+      exact ⟨XItem.erase_inRange x (Hs 0) h.1 hf.1, XItem.eraseList_allInRange xs (hintsTail Hs) h.2 hf.2⟩
 end
 
 /-- … and so is a tree of the ROOT domain (root tag possibly 0), for the tag-0-tolerant round trip. -/
@@ -160,7 +162,7 @@ theorem XItem.erase_inRange0 {R : Rfc3339} {H : Hints} (t : XItem)
     simp only [XItem.representableG, Bool.and_eq_true, rootTagOk] at h
     simp only [XItem.erase, Item.Fits] at hf
     simp only [XItem.erase, Item.InRange0]
-    exact ⟨toNat_tagOk0 (by simpa using h.1), hf.1, XItem.eraseList_allInRange cs h.2 hf.2⟩
+    exact ⟨toNat_tagOk0 (by simpa using h.1), hf.1, XItem.eraseList_allInRange cs H.child h.2 hf.2⟩
   | int t v =>
     simp only [XItem.representableG, Bool.and_eq_true, rootTagOk] at h
     simp only [XItem.erase, Item.InRange0]
@@ -262,6 +264,12 @@ mutual
     | x :: xs => x.DatesIn R ∧ Item.AllDatesIn R xs
 end
 
+/-- the hints of the generic decoder for the children of an element: generic again, child by child … -/
+theorem noHints_child : noHints.child = fun _ => noHints := rfl
+
+/-- … and so are those for the children after the first. -/
+theorem hintsTail_noHints : hintsTail (fun _ => noHints) = fun _ => noHints := rfl
+
 theorem tagOk_ofNat {t : Nat} (h0 : 0 < t) (h : t < 2 ^ 24) : tagOk (t : Int) = true :=
   tagOk_iff.mpr ⟨by omega, by omega⟩
 
@@ -274,7 +282,7 @@ mutual
     | .struct t cs, h, hd => by
       simp only [Item.InRange] at h
       simp only [Item.DatesIn] at hd
-      simp only [Item.lift, XItem.representableG, Bool.and_eq_true, rootTagOk]
+      simp only [Item.lift, XItem.representableG, Bool.and_eq_true, rootTagOk, noHints_child]
       exact ⟨by simpa using tagOk_ofNat h.1 h.2.1, Item.liftList_rep cs h.2.2.2 hd⟩
     | .int t v, h, _ => by
       simp only [Item.InRange] at h
@@ -314,12 +322,12 @@ mutual
       simp only [Item.lift, XItem.representableG, Bool.and_eq_true, rootTagOk, decide_eq_true_eq]
       exact ⟨by simpa using tagOk_ofNat h.1 h.2.1, by have := h.2.2; omega⟩
   theorem Item.liftList_rep {R : Rfc3339} : ∀ (cs : List Item), Item.AllInRange cs →
-      Item.AllDatesIn R cs → XItem.representableList R noHints (Item.liftList cs) = true
+      Item.AllDatesIn R cs → XItem.representableList R (fun _ => noHints) (Item.liftList cs) = true
     | [], _, _ => by simp [Item.liftList, XItem.representableList]
     | x :: xs, h, hd => by
       simp only [Item.AllInRange] at h
       simp only [Item.AllDatesIn] at hd
-      simp only [Item.liftList, XItem.representableList, Bool.and_eq_true]
+      simp only [Item.liftList, XItem.representableList, Bool.and_eq_true, hintsTail_noHints]
       exact ⟨Item.lift_rep x h.1 hd.1, Item.liftList_rep xs h.2 hd.2⟩
 end
 
@@ -331,7 +339,7 @@ theorem Item.lift_rep0 {R : Rfc3339} (t : Item) (h : t.InRange0) (hd : t.DatesIn
   | struct t cs =>
     simp only [Item.InRange0] at h
     simp only [Item.DatesIn] at hd
-    simp only [Item.lift, XItem.representableG, Bool.and_eq_true, rootTagOk]
+    simp only [Item.lift, XItem.representableG, Bool.and_eq_true, rootTagOk, noHints_child]
     exact ⟨by simpa using tagOk0_ofNat h.1, Item.liftList_rep cs h.2.2 hd⟩
   | int t v =>
     simp only [Item.InRange0] at h
@@ -386,7 +394,7 @@ mutual
   theorem XItem.lift_erase {R : Rfc3339} {top : Bool} : ∀ (t : XItem),
       t.representableG top R noHints = true → t.erase.lift = t
     | .struct t cs, h => by
-      simp only [XItem.representableG, Bool.and_eq_true] at h
+      simp only [XItem.representableG, Bool.and_eq_true, noHints_child] at h
       simp only [XItem.erase, Item.lift, toNat_cast_of_tagOk0 (tagOk0_of_rootTagOk h.1),
         XItem.liftList_eraseList cs h.2]
     | .int t v, h => by
@@ -421,10 +429,10 @@ mutual
       simp only [XItem.representableG, Bool.and_eq_true] at h
       simp only [XItem.erase, Item.lift, toNat_cast_of_tagOk0 (tagOk0_of_rootTagOk h.1)]
   theorem XItem.liftList_eraseList {R : Rfc3339} : ∀ (cs : List XItem),
-      XItem.representableList R noHints cs = true → Item.liftList (XItem.eraseList cs) = cs
+      XItem.representableList R (fun _ => noHints) cs = true → Item.liftList (XItem.eraseList cs) = cs
     | [], _ => by simp [XItem.eraseList, Item.liftList]
     | x :: xs, h => by
-      simp only [XItem.representableList, Bool.and_eq_true] at h
+      simp only [XItem.representableList, Bool.and_eq_true, hintsTail_noHints] at h
       simp only [XItem.eraseList, Item.liftList, XItem.lift_erase x h.1, XItem.liftList_eraseList xs h.2]
 end
 
